@@ -447,10 +447,105 @@ def spike_spec(eng: SiblingEngine, fi: FuncInfo, profile: bool) -> List[Ob]:
                 obs.append(violation('R02.6', t, fi.loc(n), key=f"{fn}::min-dist-call::{ast.unparse(n)}", detail=ast.unparse(n)))
     if n_calls < 8:
         obs.append(inconclusive('R02.6', f"{fi.name}: at least 8 nearest-spike calls found", fi.loc(), f"{n_calls}", construct=fn))
+    # ---- R02.4 inter-spike interval of a train at the edges (same rule as the ISI kernels, R01.4): on every prologue
+    # path and on every loop path on which a train steps onto its last spike, some local holds the edge-corrected
+    # interval.  Values are compared on the path: conditional expressions are resolved by the path conditions, the
+    # cursor is pinned to N-1 on a last-spike path, `s[0]` equals `t_start` on an on-edge path (valid trains), and
+    # max(0, d) is d for a difference d of later and earlier times.
+    def simp(tm, conds, facts):
+        tm = C.resolve_ifexp(C.subst_atoms(tm, facts), [C.subst_atoms(c_, facts) if False else c_ for c_ in conds])
+        tm = C.subst_atoms(tm, facts)
+
+        def f(a):
+            if a[0] == 'max' and C.ZERO in a[1] and len(a[1]) == 2:
+                other = [x for x in a[1] if x != C.ZERO][0]
+                its = other[1] if C.is_poly(other) else ()
+                # a difference `later - earlier`: one atom with +1, one with -1
+                if len(its) == 2 and sorted(c_ for _, c_ in its) == [-1, 1]:
+                    return other
+            return None
+        return C.rebuild(tm, f)
+
+    def holds_somewhere(env, want, conds, facts, split=None) -> Tuple[bool, List[str]]:
+        """some local equals `want` on this path - compared separately under `split` and under its negation when the
+        path does not decide it (a value `a if c else b` and a value computed from such parts then agree case by case)"""
+        cases = [list(conds)]
+        if split is not None and split not in conds and C.mk_not(split) not in conds:
+            cases = [list(conds) + [split], list(conds) + [C.mk_not(split)]]
+        seen = []
+        for nm, v in env.vals.items():
+            if not C.is_poly(v) or C.is_const(v):
+                continue
+            if all(simp(C.to_poly(v), cs, facts) == simp(want, cs, facts) for cs in cases):
+                return True, []
+            g = simp(C.to_poly(v), cases[0], facts)
+            if ('n', t_end) in C.atoms_of(g) or ('n', t_start) in C.atoms_of(g):
+                seen.append(f"{nm} = {C.show(g)}")
+        return False, seen[:6]
+    for n_path, (env, stores, conds) in enumerate(pro):
+        if C.contradictory(conds):
+            continue
+        for k in (1, 2):
+            gt1 = C.mk_cmp('gt', N[k], C.ONE)
+            first_c = C.mk_cmp('gt', sub(k, C.ZERO), ts)
+            d10 = C.sub(sub(k, C.ONE), sub(k, C.ZERO))
+            if first_c in conds:
+                want = C.atom(('ifexp', gt1, C.mk_minmax('max', [C.sub(sub(k, C.ZERO), ts), d10]), C.sub(sub(k, C.ZERO), ts)))
+                facts = {}
+                what = f"first interval of train {k} when its first spike lies after t_start: max(s[0]-t_start, s[1]-s[0]) if N>1 else s[0]-t_start"
+            elif C.mk_not(first_c) in conds:
+                want = C.atom(('ifexp', gt1, d10, C.sub(te, sub(k, C.ZERO))))
+                facts = {C.single_atom(ts): sub(k, C.ZERO)}       # s[0] == t_start on this path
+                what = f"first interval of train {k} when its first spike sits on t_start: s[1]-s[0] if N>1 else t_end-s[0]"
+            else:
+                continue
+            good, seen = holds_somewhere(env, want, conds, facts, gt1)
+            t = f"{fi.name} ({fi.path}): {what} (prologue path {n_path})"
+            if good:
+                obs.append(ok('R02.4', t, fi.loc(), construct=f"{fn}::isi-init::{k}::{n_path}"))
+            else:
+                obs.append(violation('R02.4', t, fi.loc(), key=f"{fn}::spike-isi-init::train{k}::{'first' if first_c in conds else 'edge'}",
+                                     detail=f"no local holds {C.show(simp(want, conds, facts))} on the path {_cond_txt(conds)}; "
+                                            f"candidates: {seen}"))
     # ---- R02.3 tie branch
     body = loop[2]
-    lp = _paths(eng, fi, body)
+    seed_l = _env_for(Side(fi))
+    seed_l.call_adapters = eng._adapters([], 'spec')
+    for a_, b_ in alias.items():
+        seed_l.vals[a_] = C.atom(('n', b_))          # `t1 = spikes1` aliases of the prologue
+    lp = _paths(eng, fi, body, seed_l)
     ret = _returned_names(fi)
+    for n_path, (env, stores, conds) in enumerate(lp):
+        if C.contradictory(conds):
+            continue
+        for k, cur in ((1, roles.c1), (2, roles.c2)):
+            if C.to_poly(env.get(cur)) == C.atom(('n', cur)):
+                continue            # train k does not advance on this path
+            cnew = C.add(C.atom(('n', cur)), C.ONE)
+            nname = roles.n1 if k == 1 else roles.n2
+            Nk = C.atom(('n', nname))
+            not_last = C.mk_cmp('lt', cnew, C.sub(Nk, C.ONE))
+            if not_last in conds:
+                continue
+            if C.mk_not(not_last) not in conds:
+                # the advance is not followed by a visible `cursor < N-1` test (e.g. hidden in a helper): undecided here
+                obs.append(inconclusive('R02.4', f"{fi.name}: the advance of train {k} is followed by the `cursor < N-1` test "
+                                        f"(loop path {n_path})", fi.loc(loop[-1]), construct=f"{fn}::isi-last::{k}::{n_path}"))
+                continue
+            gt1 = C.mk_cmp('gt', Nk, C.ONE)
+            last = C.sub(Nk, C.ONE)
+            e_dist = C.sub(te, sub(k, last))
+            want = C.atom(('ifexp', gt1, C.mk_minmax('max', [e_dist, C.sub(sub(k, last), sub(k, C.sub(last, C.ONE)))]), e_dist))
+            facts = {('n', cur): C.sub(Nk, C.const(2)), C.single_atom(N[k]): Nk}
+            good, seen = holds_somewhere(env, want, conds, facts, gt1)
+            t = (f"{fi.name} ({fi.path}): when train {k} steps onto its last spike its interval becomes "
+                 f"max(t_end-s[N-1], s[N-1]-s[N-2]) if N>1 else t_end-s[N-1] (loop path {n_path})")
+            if good:
+                obs.append(ok('R02.4', t, fi.loc(loop[-1]), construct=f"{fn}::isi-last::{k}::{n_path}"))
+            else:
+                obs.append(violation('R02.4', t, fi.loc(loop[-1]), key=f"{fn}::spike-isi-last::train{k}::path{n_path}",
+                                     detail=f"no local holds {C.show(simp(want, conds, facts))} on the path {_cond_txt(conds)}; "
+                                            f"candidates: {seen}"))
     for n_path, (env, stores, conds) in enumerate(lp):
         both = C.to_poly(env.get(roles.c1)) != C.atom(('n', roles.c1)) and C.to_poly(env.get(roles.c2)) != C.atom(('n', roles.c2))
         if not both:
